@@ -316,9 +316,29 @@ Definition graphql_next : prog :=
   (If (TCur (COr CFAlpha (CEq 95))) (AdvG it_idrest)
   (AdvG (Ret K_EOF))))))))).
 
+(** the GraphQL lexer with the proposed repair (proposed-fixes/C12-graphql-lexer-utf8.diff): [peek_next] and
+    the closing-quote test look ahead on a clone of the character iterator instead of slicing the source *)
+Fixpoint repair_sl (p : prog) : prog :=
+  match p with
+  | AdvG k => AdvG (repair_sl k)
+  | AdvU k => AdvU (repair_sl k)
+  | AdvByte k => AdvByte (repair_sl k)
+  | If (TSl i c) a b => If (TAh i c) (repair_sl a) (repair_sl b)
+  | If t a b => If t (repair_sl a) (repair_sl b)
+  | SetR r v k => SetR r v (repair_sl k)
+  | SetCur r k => SetCur r (repair_sl k)
+  | Incr r k => Incr r (repair_sl k)
+  | Mark k => Mark (repair_sl k)
+  | Reset k => Reset (repair_sl k)
+  | While b k => While (repair_sl b) (repair_sl k)
+  | x => x
+  end.
+Definition graphql_next_repaired : prog := repair_sl graphql_next.
+
 Definition lex_gql := lex Byte gql_next.
 Definition lex_gql_pre := lex Byte gql_next_pre.
 Definition lex_cypher := lex Byte cypher_next.
 Definition lex_sparql := lex Byte sparql_next.
 Definition lex_gremlin := lex Iter gremlin_next.
 Definition lex_graphql := lex Iter graphql_next.
+Definition lex_graphql_repaired := lex Iter graphql_next_repaired.
